@@ -326,7 +326,7 @@ class Prop:
 
     # ---- running
     def run_impl(self, cases, tier):
-        return rustrun.daemon_test('C17', 'convert::verif_hx::verif_convert_cases', [self.case_to_val(c) for c in cases])
+        return rustrun.daemon_test('C17-impl', 'convert::verif_hx::verif_convert_cases', [self.case_to_val(c) for c in cases])
 
     def run_model(self, cases, tier):
         pre = 'From RB Require Import Base.Val Model.Api.\nOpen Scope N_scope.'
